@@ -13,7 +13,8 @@ static std::string flavor;
 static bool alive[MAXC];          // bookkeeping of what this driver did (no oracle)
 
 // ---------------- C flavour ----------------
-struct CItem { int key; struct dlist_head lnk; };
+struct CItem { int key; struct dlist_head lnk; struct dlist_head lnk2; };    // lnk2: every item also sits in a second list through a second link field
+static struct dlist_head c_all;
 static struct dlist_head c_heads[MAXC];
 static CItem c_items[MAXC];
 static struct dlist_head *cptr(int c) { return c < NH ? &c_heads[c] : &c_items[c - NH].lnk; }
@@ -24,8 +25,11 @@ static int cidx(struct dlist_head *p) {
 static int c_less(CItem *a, CItem *b) { return a->key < b->key; }
 
 // ---------------- C++ flavour ----------------
-struct XItem { int id; igris::dlist_node lnk; };
+struct XItem { int id; igris::dlist_node lnk; igris::dlist_node lnk2; };   // lnk2: membership in a second list (all live items, by id) at the same time
 typedef igris::dlist<XItem, &XItem::lnk> XList;
+typedef igris::dlist<XItem, &XItem::lnk2> XList2;
+alignas(16) static unsigned char x_all_mem[sizeof(XList2)]; static bool x_all_live = false;
+static XList2 &xall() { return *reinterpret_cast<XList2 *>(x_all_mem); }
 alignas(16) static unsigned char x_heads_mem[MAXC][sizeof(XList)];
 alignas(16) static unsigned char x_items_mem[MAXC][sizeof(XItem)];
 static XList &xl(int h) { return *reinterpret_cast<XList *>(x_heads_mem[h]); }
@@ -36,6 +40,7 @@ static int xidx_node(const igris::dlist_node *p) {
     for (int h = 0; h < NH; ++h) if (xl(h).end().current == p) return h;
     return -1;
 }
+static void xall_insert(int c);
 static int xidx_item(const XItem *p) {
     for (int c = NH; c < NC; ++c) if (&xi(c) == p) return c;
     // an iterator standing on a list head yields the pseudo item around that head
@@ -49,6 +54,9 @@ static std::string arr2(const std::vector<std::vector<long long>> &v) {
     return s + "]";
 }
 
+static void xall_insert(int c) {   // keep the second list ordered by id
+    for (auto it = xall().begin(); it != xall().end(); ++it) if (it->id > xi(c).id) { xall().move_prev(xi(c), *it); return; }
+    xall().move_back(xi(c)); }
 static void observe(Ev &e) {
     const int LIM = 4 * NC + 4;
     std::vector<long long> nx(NC), pv(NC), linked(NC), size(NH), rsize(NH), empty(NH), correct(NH), cyc(NH, 0);
@@ -100,6 +108,11 @@ static void observe(Ev &e) {
             else size[h] = rsize[h] = empty[h] = correct[h] = -3;
         }
     }
+    // the second list every item is a member of (through its second link field), read through the entry accessors
+    std::vector<long long> all2;
+    if (flavor == "c") { CItem *pos; int st3 = 0; dlist_for_each_entry(pos, &c_all, lnk2) { all2.push_back(pos->key); if (++st3 > LIM) break; } }
+    else if (x_all_live) { int st3 = 0; for (auto it = xall().begin(); it != xall().end(); ++it) { all2.push_back(xidx_item(&*it)); if (++st3 > LIM) break; } }
+    e.ints("all2", all2);
     e.ints("nx", nx).ints("pv", pv).ints("linked", linked).raw("fwd", arr2(fwd)).raw("bwd", arr2(bwd))
      .ints("size", size).ints("rsize", rsize).ints("empty", empty).ints("correct", correct).raw("inm", arr2(inm))
      .raw("efwd", arr2(efwd)).raw("ebwd", arr2(ebwd)).raw("esafe", arr2(esafe)).ints("first", first).ints("last", last).ints("chk", chk).ints("chkr", chkr);
@@ -142,7 +155,7 @@ static void op_x(const std::vector<std::string> &t) {
     else if (op == "Splice") xl(a).unlink_and_move_all_nodes_from_other(std::move(xl(b)));
     else if (op == "DestroyNode") { xi(a).~XItem(); alive[a] = false; }
     else if (op == "DestroyList") { xl(a).~XList(); alive[a] = false; }
-    else if (op == "Create") { if (a < NH) new (x_heads_mem[a]) XList(); else { new (x_items_mem[a - NH]) XItem(); xi(a).id = a; } alive[a] = true; }
+    else if (op == "Create") { if (a < NH) new (x_heads_mem[a]) XList(); else { new (x_items_mem[a - NH]) XItem(); xi(a).id = a; xall_insert(a); } alive[a] = true; }
     else { fprintf(stderr, "bad cxx op %s\n", op.c_str()); exit(3); }
     Ev e(op.c_str()); e.i("a", a).i("b", b); observe(e); e.end();
 }
@@ -151,14 +164,16 @@ int main(int argc, char **argv) {
     return run(argc, argv, [&](const std::vector<std::string> &t) {
         if (t[0] == "R") {
             if (flavor == "cxx") {   // tear down the previous execution
-                for (int c = NH; c < NC; ++c) if (alive[c]) xi(c).lnk.unlink();
+                for (int c = NH; c < NC; ++c) if (alive[c]) { xi(c).lnk.unlink(); xi(c).lnk2.unlink(); }
                 for (int c = 0; c < NC; ++c) alive[c] = false;
             }
+            if (x_all_live) { xall().~XList2(); x_all_live = false; }
             flavor = t[1]; NH = num(t[2]); NN = num(t[3]); NC = NH + NN;
+            if (flavor == "c") dlist_init(&c_all); else { new (x_all_mem) XList2(); x_all_live = true; }
             for (int c = 0; c < NC; ++c) {
                 alive[c] = true;
-                if (flavor == "c") { dlist_init(cptr(c)); if (c >= NH) c_items[c - NH].key = c; }
-                else if (c < NH) new (x_heads_mem[c]) XList(); else { new (x_items_mem[c - NH]) XItem(); xi(c).id = c; }
+                if (flavor == "c") { dlist_init(cptr(c)); if (c >= NH) { c_items[c - NH].key = c; dlist_init(&c_items[c - NH].lnk2); dlist_add_tail(&c_items[c - NH].lnk2, &c_all); } }
+                else if (c < NH) new (x_heads_mem[c]) XList(); else { new (x_items_mem[c - NH]) XItem(); xi(c).id = c; xall_insert(c); }
             }
             Ev e("Reset"); e.str("flavor", flavor.c_str()).i("nh", NH).i("nn", NN); observe(e); e.end(); return;
         }
